@@ -154,7 +154,7 @@ def cargo_check(d, mods, timeout=1500):
         m = re.match(r"^(?:src/|/)(\S+?):\d+:\d+: error(?:\[(E\d+)\])?: (.*)$", ln)
         if m:
             path = m.group(1)
-            mod = path.split("/")[0] if not ln.startswith("/") else next((x for x in path.split("/") if re.match(r"^[cdwqs]\d+", x)), path)
+            mod = path.split("/")[0] if not ln.startswith("/") else next((x for x in path.split("/") if re.match(r"^[acdwqs]\d+", x)), path)
             errs.append((mod, m.group(2) or "syntax", m.group(3)[:300]))
         elif ln.startswith("error") and "could not compile" not in ln and "aborting" not in ln:
             errs.append(("?", "error", ln[:300]))
@@ -392,6 +392,10 @@ def gen_docs(rng, tier):
     # conversion) x include (collisions in the including file, in the included file, in both along a chain, in a diamond)
     for i, (name, cd) in enumerate(bldgen.collision_include_docs()):
         docs.append(dict(id="c%d" % i, kind="thrift", doc=cd, files=cd.texts(), entry="main.thrift", directed=name))
+    # directed (raw text, no AST: compiled and derive-checked, not part of the naming correspondences): pilota annotations on every
+    # position x the other features of the same item
+    for i, (name, files, entry) in enumerate(bldgen.annotation_docs()):
+        docs.append(dict(id="a%d" % i, kind="thrift", doc=None, files=files, entry=entry, directed=name))
     for i in range(n_th):
         r = random.Random(rng.randrange(1 << 30))
         doc = bldgen.gen_thrift_doc(r, exotic=r.choice([0.3, 0.6, 0.9]), union_cycles=0.08, path_kw_pairs=0.05, arc_btree_edges=0.08, btree_double=0.3)
@@ -580,7 +584,7 @@ def run(chk, replay=None):
             if c not in seen:
                 seen.append(c)
         d["cfgs"] = seen
-    th_docs = [(i, d) for i, d in enumerate(docs) if d["kind"] == "thrift"]
+    th_docs = [(i, d) for i, d in enumerate(docs) if d["kind"] == "thrift" and d.get("doc") is not None]
     docs_scopes = [(i, doc_scopes(d["doc"])) for i, d in th_docs]
     names = {}
     n_emit = 0
@@ -602,12 +606,12 @@ def run(chk, replay=None):
         d["idl"] = idl
         for c in d["cfgs"]:
             cls = set()
-            if d["kind"] == "thrift":
+            if d["kind"] == "thrift" and d.get("doc") is not None:
                 sc = dict(docs_scopes)[di]
                 nn = {lab: names[c["cc"]].get((di, lab), []) for lab, _ in sc}
                 cls = classes_of(d["doc"], sc, nn, c, ucyc.get(di) == "1")
                 cls |= const_literal_classes(d["doc"])
-            else:
+            elif d["kind"] == "pb":
                 cls = proto_shadow_class(d["files"])
             # a class whose entry is `fixed` (or absent) does not set a document apart: it is compiled with the others
             cls = {k for k in cls if chk.known_finding(k) is not None}
@@ -631,7 +635,7 @@ def run(chk, replay=None):
     dans = core.run_lines(runner, [l for m in dkeys for l in derive_lines(dumps[m])], shards=1) if dkeys else []
     dmodel = {m: (parse_derive_answer(dans[2 * i]), parse_derive_answer(dans[2 * i + 1])) for i, m in enumerate(dkeys)}
     mods, modinfo = [], {}
-    dist = dict(documents=len(docs), thrift=len(th_docs), protobuf=len(docs) - len(th_docs), configurations={cfg_id(c): 0 for c in CONFIGS},
+    dist = dict(documents=len(docs), thrift=sum(1 for d in docs if d["kind"] == "thrift"), protobuf=sum(1 for d in docs if d["kind"] == "pb"), configurations={cfg_id(c): 0 for c in CONFIGS},
                 builder_runs=0, builder_failures=0, compiled_modules=0, emitted_lines=0, quarantined_runs=len(quarantined),
                 known_class_counts={}, items_per_doc=[d["doc"].size() for _, d in th_docs], files_per_doc=[len(d["files"]) for d in docs],
                 struct_blocks_compared=0, box_decisions_compared=0, derive_graphs=0, derive_items_compared=0, derive_items_not_found=0,
@@ -686,7 +690,7 @@ def run(chk, replay=None):
                                      correspondence="AutoDerive (Derive.decisions vs emitted #[derive]; (PartialOrd, Hash+Eq+Ord) per item)",
                                      files=d["files"], cfg=c))
         # ---- text correspondences (single-file outputs of thrift documents)
-        if d["kind"] == "thrift" and c["mode"] == "single":
+        if d["kind"] == "thrift" and c["mode"] == "single" and d.get("doc") is not None:
             structs = scrape_structs(txt)
             sc = dict(docs_scopes)[di]
             nn = names[c["cc"]]
